@@ -174,3 +174,9 @@ Definition semantic_o : list op :=
 (* prettify / generate_sdmx: the script is an immutable str (or a frozen TransformationScheme); everything is built new *)
 Definition prettify_o : list op := [Raise; New vTmp; Raise; New vData; Mutate vData TValues].
 Definition generate_sdmx_o : list op := [Raise; New vTmp; Raise; New vData; Mutate vData TValues; Raise].
+
+(* validate_value_domain / validate_external_routine: the definition dict (or list of dicts) is validated against the JSON
+   schema and a new ValueDomain / ExternalRoutine object is built from its fields; create_ast: text in, new AST out *)
+Definition validate_vd_o : list op := [Raise; Alias vTmp pVd; Raise; New vTmp; Mutate vTmp TValues; Raise].
+Definition validate_er_o : list op := [Raise; Alias vTmp pEr; Raise; New vTmp; Mutate vTmp TValues; Raise].
+Definition create_ast_o : list op := [Raise; New vTmp; Mutate vTmp TValues; Raise].
